@@ -166,6 +166,28 @@ def array_part(ob):
                 ob.check(f"numpy/setitem/{m}=={n}{sid}", np.array_equal(b[n], c[n]) and np.array_equal(np.asarray(b).tolist(), np.asarray(c).tolist()))
             except Exception as e:
                 ob.check(f"numpy/field/{m}=={n}{sid}", False, f"{type(e).__name__}: {e}")
+        # "the flavor never changes any number": operators and norm ufuncs on the momentum array equal those on the geometric twin
+        pairs_ = [("numpy", a_mom, a_gen)]
+        if ak is not None:
+            try:
+                pairs_.append(("awkward", vector.Array([{m: float(data[n][i]) for m, n in zip(mnames, names)} for i in range(3)]),
+                               vector.Array([{n: float(data[n][i]) for n in names} for i in range(3)])))
+            except Exception:
+                pass
+        flav_ops = [("abs", lambda v: abs(v)), ("**2", lambda v: v ** 2), ("**3", lambda v: v ** 3), ("**0.5", lambda v: v ** 0.5), ("numpy.sqrt", lambda v: np.sqrt(v)),
+                    ("numpy.cbrt", lambda v: np.cbrt(v)), ("numpy.square", lambda v: np.square(v)), ("numpy.absolute", lambda v: np.absolute(v)),
+                    ("numpy.power(v,2)", lambda v: np.power(v, 2)), ("numpy.power(v,3.5)", lambda v: np.power(v, 3.5)),
+                    ("dot(self)", lambda v: v.dot(v)), ("unit.rho", lambda v: v.unit().rho), ("scale(2).rho", lambda v: v.scale(2).rho), ("-v.rho", lambda v: (-v).rho)]
+        for bname, vm, vg in pairs_:
+            for oname, f in flav_ops:
+                try:
+                    with np.errstate(all="ignore"):
+                        x, y = f(vm), f(vg)
+                    x = np.asarray(ak.to_numpy(x)) if (ak is not None and isinstance(x, ak.Array)) else np.asarray(x)
+                    y = np.asarray(ak.to_numpy(y)) if (ak is not None and isinstance(y, ak.Array)) else np.asarray(y)
+                    ob.check(f"{bname}/flavor-changes-no-number/{oname}{sid}", np.array_equal(x, y, equal_nan=True), dict(momentum=x.tolist(), geometric=y.tolist()))
+                except Exception as e:
+                    ob.check(f"{bname}/flavor-changes-no-number/{oname}{sid}", False, f"{type(e).__name__}: {str(e)[:150]}")
         # every mixture of spellings (each coordinate independently geometric or any of its synonyms): record layout, rows,
         # element access and the coordinate sub-views are those of the geometric spelling
         import itertools
